@@ -151,5 +151,6 @@ otherwise contracts stated as Section hypotheses and checked by the harness on t
 s = open(V + '/DESIGN.md').read()
 if '\n## 11. Findings of the implementation round' in s:
     s = s[:s.index('\n## 11. Findings of the implementation round')]
-open(V + '/DESIGN.md', 'w').write(s.rstrip('\n') + '\n' + findings() + seeds() + status())
+fa = '\n' + open(V + '/false_alarms.md').read() if os.path.exists(V + '/false_alarms.md') else ''
+open(V + '/DESIGN.md', 'w').write(s.rstrip('\n') + '\n' + findings() + fa + seeds() + status())
 print("DESIGN.md sections 11-13 regenerated")
